@@ -46,11 +46,10 @@ theorem C12_owned_is_reachable (w : World) (hi : C13.Inv w) (i o f : Nat) (h : w
     ∃ k, k < w.max ∧ (w.sbx i).slots k = some f :=
   (hi.keysSlots i f).1 ((hi.keysOwned i f).2 ⟨o, h⟩)
 
-/-- Source fact regenerated on every run: the callback machinery of the dylib backend (trampolines,
-slot allocation and release, per-thread current-sandbox save/restore, executed-callback lookup) is
-textually the noop backend's, so what is established on noop carries over; the thread-local record
-of both bundled backends is declared `thread_local`. -/
-theorem dylib_callbacks_same_as_noop : Generated.dylibCallbackCodeSameAsNoop = true ∧ Generated.threadDataThreadLocal = true := by decide
+/-- Source fact regenerated on every run: the thread-local record of both bundled backends is declared
+`thread_local`.  (The dylib backend's callback machinery is no longer compared textually with the noop
+backend's: it is executed by the `calls` engine with a dlopen'ed guest library.) -/
+theorem backends_thread_data_is_thread_local : Generated.threadDataThreadLocal = true := by decide
 
 example :
     let slots : SlotMap := fun sb k => if sb = 0 ∧ k = 1 then some 2 else if sb = 1 ∧ k = 0 then some 0 else none
